@@ -258,6 +258,31 @@ def run_history(tmp, writes, mon: Monitor, run: Run, drive_ops=None, old=None):
         loop.run_coro(mgr2.load_data())
         mon.loaded(ctx, writes[-1], mgr2)
         exp_load = [enc_real(t, mgr2) for t in mgr2.transfers]
+        # a restart as SoulSeekClient.start does it: load_data() of the services first, then start(): the transfers read from
+        # the cache must be picked up by the scheduler without any further trigger
+        if writes and writes[-1]:
+            from unittest.mock import AsyncMock
+            mgr3 = L.make_manager(TransferShelveCache(d))
+            ran = []
+            mgr3.manage_transfers = lambda: ran.append(len(mgr3.transfers))
+            mgr3.manage_user_tracking = AsyncMock()
+            mgr3.manage_shares_changed = AsyncMock()
+
+            async def restart():
+                await mgr3.load_data()
+                await mgr3.start()
+            loop.run_coro(restart())
+            loop.run_for(2.0)
+            if mgr3.transfers and not ran:
+                mon.run.add_finding(Finding('loaded-not-scheduled-after-start', 'load_data() then start(): no management cycle ran for the loaded transfers',
+                                            ctx, observed='manage_transfers never called within 2 s', expected='a management cycle'))
+            elif ran and ran[0] != len(mgr3.transfers):
+                mon.run.add_finding(Finding('loaded-partially-scheduled', f'management cycle saw {ran[0]} of {len(mgr3.transfers)} loaded transfers', ctx))
+
+            async def halt():
+                for t in await mgr3.stop():
+                    t.cancel()
+            loop.run_coro(halt())
         ws = '[' + '; '.join('[' + '; '.join(spec_to_coq(s) for s in w) + ']' for w in writes) + ']'
         if old:
             ws = '[' + '; '.join(spec_to_coq(s) for s in old_by_key.values()) + '] ' + ws
